@@ -180,6 +180,17 @@ def corpus():
             out.append(case_dict(kind, "tcp", False, 3,
                                  ["c1:g", "l1", "l1", "l1", "c2:g", "p2", "o2:0", "o2:1", "o2:2", "o1:0", "d1:0", "o2:0",
                                   "o1:0", "o1:1", "l2", "o1:3", "o2:3", "g1", "o2:1", "o2:2", "p2"]))
+    for kind in KINDS:
+        # clients that reset while inside the authenticator (slow credentials, then RST) - except on the pool, where one
+        # such client is the stall finding: there they reset at once
+        if kind == "pool":
+            toks = ["c1:g", "p1"] + ["c%d:r" % k for k in range(2, 8)] + ["p1", "c9:g", "p9"]
+        else:
+            toks = ["c1:g", "p1"]
+            for k in range(2, 8):
+                toks += ["c%d:s" % k, "z%d" % k]
+            toks += ["p1", "c9:g", "p9"]
+        out.append(case_dict(kind, "tcp", True, 3, toks))
     for kind in ("threaded", "forking"):
         # slow credentials: the authenticator of one client waits while everybody else goes on
         out.append(case_dict(kind, "tcp", True, 3, ["c1:g", "p1", "c2:s", "p1", "c3:s", "c4:g", "p4", "k2:g", "p2", "k3:b",
@@ -280,7 +291,7 @@ def gen_case(r, corp, kind=None):
             hostile_open.remove(k)
             if k in stuck:
                 stuck.remove(k)
-            toks.append("a%d" % k)
+            toks.append(("z%d" if transport == "tcp" and r.chance(1, 2) else "a%d") % k)
         if r.chance(1, 2):                                            # the server still accepts
             connect_good()
             if len(good) > 3:
@@ -420,6 +431,7 @@ def oracle_case(case, known=(), ceiling=servers.CEILING):
             if t == "X":
                 continue                 # not an operation of this property
             k = int(tok[1:].split(":")[0])
+
             where = "after op %d (%s): " % (i, tok[:60])
             if t == "c" and not tok.endswith(":g"):
                 hostile.add(k)
@@ -435,10 +447,33 @@ def oracle_case(case, known=(), ceiling=servers.CEILING):
                     servers.ITEM_BYTES[x]() for x in tok.split(":")[1])
                 if frames_of(data)[1]:
                     holding.add(k)
-            if t == "a":
+            if t in "az":
                 holding.discard(k)
                 stalled.discard(k)
             obs = sess.do(tok)
+            if t in "az" or (t == "c" and tok[-2:] in (":r", ":b")):
+                # a client that has gone (or was turned away) keeps no tracked socket and no descriptor of the server:
+                # otherwise every such client costs the server a descriptor for good, and it dies of EMFILE in the end
+                starving = kind == "pool" and (len(holding) >= case["nb"] or stalled)
+                if not starving:
+                    def live():
+                        return sum(1 for c2 in sess.clients.values() if c2.open and not c2.eof)
+
+                    def clean():
+                        sn = sess.backend.snapshot()
+                        if kind != "forking":
+                            sn["fds"] -= sum(1 for c2 in sess.clients.values() if c2.holds_fd())
+                        n = live()
+                        return (sn["c"] <= n and sn["f"] <= n and sn["ch"] <= n and
+                                sn["fds"] <= sn["L"] + (0 if kind == "forking" else n))
+                    cl = sess.clients.get(k)
+                    if t == "c" and tok.endswith(":b") and cl is not None:
+                        servers.wait_for(cl.sees_eof, ceiling)
+                    if servers.wait_for(clean, ceiling) is None:
+                        sn = sess.backend.snapshot()
+                        return (where + "with %d client(s) still connected the server tracks %d socket(s), %d pool "
+                                "connection(s) and holds %d descriptor(s) beyond its baseline (harness sockets included)"
+                                % (live(), sn["c"], sn["f"], sn["fds"])), "C16:%s:departed-client-keeps-descriptor" % kind
             # which known shape, if any, excuses an unanswered good client right now
             excuse = None
             if kind == "pool" and len(holding) >= case["nb"]:
@@ -504,6 +539,20 @@ def oracle_case(case, known=(), ceiling=servers.CEILING):
         sess.close()
 
 
+def exhaustion_cases():
+    return [dict(kind="fault", scenario="descriptor-limit", server=k, resets=120) for k in ("threaded", "pool")]
+
+
+def oracle_fault(fault):
+    """a server with an authenticator under a low RLIMIT_NOFILE (subprocess): `resets` clients connect and reset, at once or
+    after one byte of their credentials; afterwards nothing of them is tracked and a well-behaved client is served"""
+    res = servers.run_exhaustion(fault["server"], fault["resets"])
+    if res["good_client"] != "pong" or not res["accept_alive"] or not res["listener_open"] or res["tracked"]:
+        return ("after %d clients that reset inside / before the authenticator (descriptor limit %d): %r"
+                % (fault["resets"], res["limit"], res)), "C16:%s:departed-client-keeps-descriptor" % fault["server"]
+    return None
+
+
 def oracle_twice(case, known):
     res = oracle_case(case, known)
     if res is None:
@@ -542,6 +591,10 @@ def oracle_search(ctx, corr, broken):
             yield case
         while True:
             yield gen_case(r, corp)
+    for fault in exhaustion_cases():
+        res = oracle_fault(fault)
+        if res is not None and res[1] not in known and oracle_fault(fault) is not None:
+            return fault, res[0], res[1]
     for case in candidates():
         if time.time() > deadline:
             break
@@ -587,6 +640,11 @@ def known_probes(ctx):
 
 def replay(case):
     out = dict(case=case)
+    if case.get("kind") == "fault":
+        res = oracle_fault(case)
+        out["implementation"] = servers.run_exhaustion(case["server"], case["resets"])
+        out["oracle"] = "holds" if res is None else dict(failure=res[0], signature=res[1])
+        return out
     try:
         exp = model_lines(case)
     except Exception as ex:  # noqa
